@@ -11,37 +11,45 @@ granted after a bounded number of retries with all disk jobs completed in betwee
 from ekw import sim_shm
 
 PROPERTY = "C09"
-LEVEL_TEXT = ("Lean theorems over Model/Shm.lean: content (granted get => the segment has the granted size and holds the writer's bytes, via the invariant "
-              "in_memory/created => segment, on_disk => file, transitional => the one the pending job has not consumed yet; proved for all histories of "
-              "the _partial class, counterexample c09_content_full_fails outside it), get answers wait before the writer's close and during page-out/in "
-              "(every state), the ghost 'wrote' is set by the writer's create-and-write step and by no other step, winners of page_out_at_least are "
-              "is_pageoutable and a dataset with a reader younger than STALE_READ is untouched by it (every state) and by EVERY step of every client "
-              "and disk job except that reader's own close (all invariant states), purge during a read only sets delayed_purge and the last "
-              "reader's close executes it (every state), lock discipline "
-              "pageout_all held <=> pageout_count > 0 = number of pending page-out jobs after EVERY history (true only with the fix), eventual grant (quiescent reachable state, "
-              "size <= capacity and <= free + evictable: add is granted at once or after the launched page-outs completed; composes lock "
-              "discipline, 'the lottery frees enough', 'one job per winner', 'a completed page-out returns its size'). "
-              "Unbounded histories, keys, clients; tied to the real Manager by a step-by-step correspondence check.")
-LEVEL_NOTE = ("modelled, not verified: as C08. The history-level reading of 'not readable before the writer finished' has a known exception (a writer older "
-              "than STALE_CREATE is treated as dead: known finding C09-stale-writer-readable); purge requests racing an in-flight disk job are the excluded "
-              "class of the content theorem (known finding C08-purge-in-flight)")
+LEVEL_TEXT = ("Lean theorems over Model/Shm.lean. (a) content: granted get => the segment has the granted size and holds the writer's bytes, via the invariant "
+              "in_memory/created => segment, on_disk => file, transitional => the one the pending job has not consumed yet; for all histories of the _partial class "
+              "(SafeRun; counterexample c09_content_full_fails outside it), incl. key reuse: a page-out writes the CURRENT segment whatever file an earlier life left behind "
+              "(c09_content_after_reuse). (b) not readable before the writer finished: history level -- in every SafeRun history in which writers close their own allocation "
+              "and none is older than STALE_CREATE at an eviction attempt, a granted get is preceded by the close of that allocation's own writer "
+              "(c09_readable_after_close_partial; both exclusions are necessary: c09_readable_after_close_full_fails = the two known findings); per state: get answers wait "
+              "before the close and during page-out/in. (c) protection: winners of page_out_at_least are is_pageoutable; a dataset with a reader younger than STALE_READ is "
+              "untouched by EVERY step of every client and disk job except that reader's own close (all invariant states). (d) a purge during a read only sets "
+              "delayed_purge and the close that leaves no reader executes it (any number of readers; every in_memory state); false when the dataset was evicted under readers "
+              "gone stale (c09_delayed_purge_stale_full_fails, known finding). (e) lock discipline after EVERY history; a batch in flight always ends "
+              "(c09_batch_in_flight_ends, every history, any outcomes); a page-out returns its space whatever its outcome; eventual grant from ANY SafeRun-reachable state with "
+              "ANY outcomes of the disk jobs, for add and for get of a dataset on disk (evict, page in, grant), and at the API the workers use: client.allocate returns the "
+              "buffer after at most two requests and client.get of a dataset on disk after at most three when the environment completes the launched jobs during the "
+              "pauses, for every timeout above 100 / 200 ms; TimeoutError only after the budget is used up (wait is never fatal). Unbounded histories, keys, clients; tied to the real Manager, server loop and client layer step by step.")
+LEVEL_NOTE = ("modelled, not verified: as C08. Known exceptions kept as _full_fails witnesses replayed on the real store: a writer older than STALE_CREATE is treated as dead "
+              "(C09-stale-writer-readable), a dataset dropped while being written + key reuse (C09-purge-created-key-reuse), purge requests racing an in-flight disk job "
+              "(C08-purge-in-flight, the excluded class SafeRun), a reader's close refused after eviction under stale readers (C09-stale-reader-close). Liveness is stated per "
+              "retry with the environment completing the pending jobs in between (fairness of the disk threads is an argument, not proved); under steady read traffic the "
+              "'last close' that executes a delayed purge need not come (no liveness claim). The eventual grant of get assumes the page-in itself succeeds")
 TECHNIQUE = "Lean 4 invariant proof (induction over op histories) + differential correspondence of the real shm Manager with harness-controlled disk jobs"
 LEAN_PROPS = ["EkwVerif.Props.C09"]
 LEAN_DRIVERS = ["C08"]
-RULE = ("as C08 with the read-heavy profile: more get / purge-during-read / clock jumps beyond STALE_READ, 80% of the histories end with 'all clients "
-        "finish, all disk jobs complete, retry add up to 4 times' (the scenario that exposes a leaked pageout lock). non-trivial = history with a "
-        "completed disk-job callback, a 'wait' answer or a granted get; distinct by content hash")
+RULE = ("as C08 with the read-heavy profile: more get / purge-during-read / clock jumps beyond and between the windows, 80% of the histories end with 'all clients "
+        "finish, all disk jobs complete; every dataset still held is read again (up to 5 requests, bare or through the real client.get with its default timeout); an "
+        "allocation of half to all of the capacity is retried up to 4 times (bare or through client.allocate)'. Datasets larger than the chunk size, size 0, real I/O "
+        "failures, STALE_CREATE != STALE_READ, life-cycle histories (same key, same size, other bytes, across eviction and page-in) as in C08. The content oracle compares "
+        "whole byte strings with a pattern that is not periodic in 256 or 4096. non-trivial = history with a completed disk-job callback, a 'wait' answer or a granted get")
 ASSUMPTIONS = [
-    "request handlers and pool-thread callbacks are atomic steps (DESIGN section 3); a disk job is an I/O step plus a callback step",
-    "the writer creates its segment with the granted size while its dataset is still 'created'",
-    "time.time_ns and uuid.uuid4 are replaced by deterministic fakes; get_capacity() is stubbed; the per-process multiprocessing resource tracker is disabled in the harness process",
-    "eventual grant is claimed for: key new, size <= capacity, size <= free + sizes of in_memory datasets without readers, all disk I/O succeeding",
+    "request handlers and pool-thread callbacks are atomic steps (free_space updates: see C08); a disk job is an I/O step plus a callback step",
+    "the writer creates its segment with the granted size while its dataset is still 'created' (executed for real in the client ops)",
+    "time.time_ns, uuid.uuid4, time.sleep and socket of the client module are replaced by deterministic fakes; get_capacity() is stubbed; the per-process multiprocessing resource tracker is disabled in the harness process; STALE_CREATE/STALE_READ are replaced by small, mostly different values",
+    "eventual grant is claimed when every client has finished what it holds and the disk jobs complete between the attempts: any new key with size <= capacity; any dataset the store still holds",
+    "explicit client timeouts are those for which the loop's float arithmetic makes the same number of attempts as exact arithmetic",
 ]
 KINDS = sim_shm.C09_KINDS
 
 
 def correspond(ctx):
-    n = ctx.budget(260, 6000)
+    n = ctx.budget(260, 4000)
     sim_shm.run_batch(ctx, KINDS, "c09", n, ctx.budget(80, 120), ctx.budget(5, 6), "C09_*.json")
 
 
